@@ -1,4 +1,4 @@
-// props: C01 C14
+// props: C01
 // mount: src/reader/content_pack/cluster.rs
 // C01.c: ClusterBuilder::parse (uses spare_capacity_mut / set_len: outside Verus) inverts the frozen cluster tail layout:
 // header(comp, width, count) raw(w) data(w) offsets[0..n-1](w)  ->  ([0] ++ offsets ++ [data], raw).
@@ -57,7 +57,7 @@ macro_rules! k_cluster_parse_w1 {
                 Err(_) => assert!(false),
             }
             // a blob may be EMPTY, in particular the last one (offset == data size)
-            kani::cover!($n >= 2 && bytes[bytes.len() - 1] == data && data > 0);
+            kani::cover!(bytes[bytes.len() - 1] == data && data > 0);
         }
     };
 }
